@@ -94,3 +94,53 @@ Definition timed_spec {K : carrier} {Tm : Type} (absdiff : Tm -> Tm -> Tm) (t0 :
             if Nat.eqb (fst (nth p d (0, t0))) r
             then p_cell (length d) (fun q => fst (nth q d (0, t0))) nw (timed_pblocks absdiff t0 blocks d r p) i c
             else zero)) docs.
+
+(* ---------- multiset vectorizer ---------- *)
+(* a document is a list of multisets; a context is a pair (multiset index q, slot s').  The window of the target
+   (m, s) is its own multiset (distance 0, its own slot excluded) and the next / previous R multisets at
+   distances 1..R; every token of a multiset at distance k gets the kernel value b_kf k; `offset` removes the first
+   `offset` distances (0 .. offset-1). *)
+Section MSpec.
+Context {K : carrier}.
+Variable doc : list (list nat).
+
+Definition mtok (q s' : nat) : nat := nth s' (nth q doc []) 0.
+Definition msize (q : nat) : nat := length (nth q doc []).
+
+Definition m_in (b : block K) (R m q : nat) : bool := Nat.eqb q m || in_win (b_rev b) R m q.
+
+Definition m_raw (b : block K) (m s q s' : nat) : K :=
+  if (dist m q <? b_off b) || is_mask (b_mask b) (mtok q s') || (Nat.eqb q m && Nat.eqb s' s)
+  then zero else b_kf b (dist m q).
+
+(* Σ over the (multiset, slot) pairs of the window *)
+Definition m_sum (b : block K) (R m : nat) (f : nat -> nat -> K) : K :=
+  isum (length doc) (fun q => if m_in b R m q then isum (msize q) (fun s' => f q s') else zero).
+
+Definition m_ksum (b : block K) (R m s : nat) : K := m_sum b R m (m_raw b m s).
+
+Definition m_norm (b : block K) (R m s q s' : nat) : K :=
+  if b_norm b then (if gtb0 (m_ksum b R m s) then div (m_raw b m s q s') (m_ksum b R m s) else m_raw b m s q s')
+  else m_raw b m s q s'.
+
+Definition m_weight (b : block K) (R m s q s' : nat) : K := mul (b_mix b) (m_norm b R m s q s').
+
+Definition m_total (nw : bool) (blocks : list (block K)) (r m s : nat) : K :=
+  if nw
+  then let t := bigsum (fun b => m_sum b (nth r (b_radii b) 0) m (m_weight b (nth r (b_radii b) 0) m s)) blocks in
+       if gtb0 t then t else one
+  else one.
+
+Definition m_cell (nw : bool) (blocks : list (block K)) (r m s i c : nat) : K :=
+  match nth_error blocks i with
+  | Some b => let R := nth r (b_radii b) 0 in
+              m_sum b R m (fun q s' => if Nat.eqb (mtok q s') c
+                                       then posv (div (m_weight b R m s q s') (m_total nw blocks r m s)) else zero)
+  | None => zero
+  end.
+
+End MSpec.
+
+Definition multi_spec {K : carrier} (blocks : list (block K)) (nw : bool) (docs : list (list (list nat))) (r c i : nat) : K :=
+  bigsum (fun doc => isum (length doc) (fun m => isum (msize doc m) (fun s =>
+            if Nat.eqb (mtok doc m s) r then m_cell doc nw blocks r m s i c else zero))) docs.
